@@ -241,17 +241,27 @@ def simplifyFree {γ ω : Type} (zero : α) (obs : List ω) (c : CostFn γ α) (
 
 /-! ### stop detection (`findStopsGlobal`) -/
 
-/-- what `findStopsGlobal` reads from the track and its parameters (geometry and clock not modelled: parameters).
-The second index is the LAST observation of the segment, `e = j − 1`. `findStopsGlobalForRTK` runs the same loops with
-`far` = `track[i].distanceTo(track[e]) > 3 * std_max`, `small` = `some (sqrt(var_x + var_y + var_z) < std_max)` and the
-final filter `C[a, b] != 0`. -/
+/-- what the row loops of stop detection read from the track and its parameters (geometry and clock not modelled:
+parameters). The second index is the LAST observation of the segment, `e = j − 1`. `stopPredGlobal` below gives the three
+tests of `findStopsGlobal`; `findStopsGlobalForRTK` runs the same loops with `far` = `track[i].distanceTo(track[e]) > 3 *
+std_max`, `short` = `t_e − t_i <= duration`, `small` = `some (sqrt(var_x + var_y + var_z) < std_max)` and the final filter
+`C[a, b] != 0`. -/
 structure StopPred where
-  /-- `track[i].distance2DTo(track[e]) > diameter` -/
+  /-- first test of the loop body (`break`) -/
   far : Nat → Nat → Bool
-  /-- `track[e].timestamp - track[i].timestamp <= duration` -/
+  /-- second test of the loop body (`continue`) -/
   short : Nat → Nat → Bool
-  /-- `minCircle(track.extract(i, e))`: `none` when it returns `None`, else `some (2 * radius < diameter)` -/
+  /-- `none` when the size of the segment cannot be computed (`minCircle` returns `None`), else whether it is admitted -/
   small : Nat → Nat → Option Bool
+
+/-- the three tests of `findStopsGlobal` as written since 026cb79 (inclusive boundaries, as documented):
+`track[i].distance2DTo(track[e]) > diameter` (break), `track[e].timestamp - track[i].timestamp < duration` (reward 0),
+`2 * cercle.radius <= diameter` (rewarded; written `¬ diameter < 2r`, the same for numbers that are not NaN).
+`dist i e`, `dur i e`, `circ i e` are the distance, the elapsed time and `2 * radius` of `minCircle` (`none` = `None`). -/
+def stopPredGlobal (dist dur : Nat → Nat → α) (circ : Nat → Nat → Option α) (diameter duration : α) : StopPred where
+  far := fun i e => decide (diameter < dist i e)
+  short := fun i e => decide (dur i e < duration)
+  small := fun i e => (circ i e).map (fun twoR => !decide (diameter < twoR))
 
 /-- value written by one passage through the body of the `j` loop that does not `break` -/
 def stopCell (zero : α) (sq : Nat → α) (p : StopPred) (i j : Nat) : α :=
